@@ -86,7 +86,7 @@ fn sign_and_check(n: usize, key: &api::Key, msg: &[u8], mode: &Mode, st: &mut St
     // one case in four signs with a clone of the key placed in the thread's slot
     let via_slot = crate::util::fnv(msg) % 4 == 0;
     let do_sign = |sk: &api::Sk| match mode {
-        Mode::Natural => api::sign_unbounded(msg, sk),
+        Mode::Natural => api::sign(msg, sk), // thread_rng, under the byte budget (a sign that never returns is reported)
         Mode::Seeded { seed } => api::sign_with(msg, sk, Box::new(crate::util::chacha(*seed))),
         Mode::Biased { seed, p, biased_len } => api::sign_with(msg, sk, Box::new(BiasedRng::new(*seed, *p, *biased_len as usize))),
         Mode::Restart { seed, forced } => api::sign_with(msg, sk, Box::new(crate::util::RestartRng::new(*seed, n, *forced as usize))),
